@@ -152,12 +152,14 @@ package provider
 
 // The JSON decoder reads through the error-tracking reader above and shares the remembered read error with it.
 //@ func NewJSONAmmoDecoder
+//@ modifies nothing
 //@ props C08 C13
 //@ at call jsoniter.Parse assert [the-given-buffer-size] arg(bufSize) == buffSize0
 //@ ensures [decoder-of-that-iterator] typeis(result, *JSONAmmoDecoder) && result.(*JSONAmmoDecoder).iter == result_of(jsoniter.Parse, 0) && result.(*JSONAmmoDecoder).readErrorPtr != nil
 
 // A released ammo goes back to the pool new ammo are taken from.
 //@ func (p *AmmoQueue) Release
+//@ modifies nothing
 //@ props C03 C08
 //@ requires [what-is-released-was-handed-out-by-this-provider] dyntype(a) == elemtype(p.InputPool)
 //@ at call p.InputPool.Put assert [the-released-ammo] arg(x) == a0
@@ -167,6 +169,7 @@ package provider
 //@ modifies nothing
 
 //@ func (f AmmoDecoderFunc) Decode
+//@ modifies nothing
 //@ props C08
 //@ requires f != nil
 //@ ensures calls(f) == 1 && result == result_of(f, 0)
